@@ -928,6 +928,7 @@ func DeleteHistoricVersions(ctx context.Context, s *DB, before time.Time) error 
 		if err != nil {
 			return fmt.Errorf("delete node: %s: %w", l, err)
 		}
+		s.forgetNode(l)
 	}
 	for _, l := range roots {
 		_, err := s.s3Client.DeleteObjectWithContext(ctx, &s3.DeleteObjectInput{
@@ -954,6 +955,15 @@ func DeleteHistoricVersions(ctx context.Context, s *DB, before time.Time) error 
 	}
 
 	return nil
+}
+
+// forgetNode drops a deleted node from the node cache. The cache is also what
+// tells a flush that a node is already stored, so leaving a deleted node in it
+// would make a later version that needs the same node refer to a missing object.
+func (s *DB) forgetNode(link string) {
+	if c, ok := s.cfg.NodeCache.(interface{ Remove(key interface{}) }); ok {
+		c.Remove(fmt.Sprintf("%s/%s", s.persist.NodeURLPrefix(), link))
+	}
 }
 
 type dbAndCutoff struct {
